@@ -7,7 +7,7 @@ use serde_json::json;
 
 pub fn transforms<A: Cx>() -> Vec<&'static str> {
     let mut t = vec!["rev"];
-    if matches!(A::NAME, "dna" | "iupac" | "mdna" | "miupac" | "degen") {
+    if matches!(A::NAME, "dna" | "iupac" | "mdna" | "miupac" | "degen" | "x3") {
         t.push("comp");
         t.push("revcomp");
     }
